@@ -47,6 +47,9 @@ type Agent struct {
 	// The request ID can be used for history lookup, retry, etc.
 	requestID string
 	finished  atomic.Bool
+	// stoppedEarly is set by a stop signal that arrives before the run has
+	// been set up: there is nothing to signal yet, and nothing is started.
+	stoppedEarly atomic.Bool
 
 	lock sync.RWMutex
 
@@ -97,12 +100,16 @@ var (
 	// errors on running DAG
 	errFailedSetupUnixSocket = errors.New("failed to start the unix socket")
 	errDAGIsAlreadyRunning   = errors.New("the DAG is already running")
+	errStoppedBeforeStart    = errors.New("the run was stopped before it was started")
 )
 
 // Run setups the scheduler and runs the DAG.
 func (a *Agent) Run(ctx context.Context) error {
 	if err := a.setup(); err != nil {
 		return err
+	}
+	if a.stoppedEarly.Load() {
+		return errStoppedBeforeStart
 	}
 
 	// It should not run the DAG if the condition is unmet.
@@ -410,6 +417,16 @@ func (a *Agent) dryRun() error {
 // process by sending a SIGKILL to force the process to be shutdown.
 // if processes do not terminate after MaxCleanUp time, it sends KILL signal.
 func (a *Agent) signal(sig os.Signal, allowOverride bool) {
+	a.lock.RLock()
+	ready := a.scheduler != nil && a.graph != nil
+	a.lock.RUnlock()
+	if !ready {
+		// The signal arrived before Run had built the scheduler and the
+		// graph: remember it, Run gives up as soon as it gets there.
+		a.logger.Info("Signal received before the run was set up", "signal", sig)
+		a.stoppedEarly.Store(true)
+		return
+	}
 	a.logger.Info("Sending signal to running child processes", "signal", sig)
 	done := make(chan bool)
 	go func() {
